@@ -601,6 +601,11 @@ func (t *Dense) Zero() {
 		if err := t.zeroIter(it); err != nil {
 			panic(err)
 		}
+		if t.IsMasked() {
+			t.ResetMask()
+		}
+		// a view zeroes its own elements only, never the rest of the storage window it shares with its parent
+		return
 	}
 	if t.IsMasked() {
 		t.ResetMask()
